@@ -48,7 +48,8 @@ def claims_of(r):
     c['at_most_one_message_dequeued_per_iteration'] = len(mrecv) <= 1
     # whatever the iteration takes out of a port it dispatches: nothing is read with a non-blocking look and dropped, and a dequeued message always reaches
     # the decoder (from there on the other claims follow it) unless a kill ends the actor first
-    c['nothing_taken_from_a_port_is_discarded'] = not flushed
+    taken = [e for e in tr if e[0] == 'RECV' and e[1] in ('stopq', 'supq', 'msgq')]
+    c['nothing_taken_from_a_port_is_discarded'] = not flushed and len(taken) <= 1
     if r['klass'] is not None and any(e[1] in ('plain', 'serialized') for e in kinds):
         c['a_dequeued_message_reaches_the_decoder_unless_a_kill_preempts'] = bool(dec) or killed
     c['a_handler_starts_at_most_once_and_only_for_a_dequeued_message'] = len(hstart) <= 1 and (not hstart or len(mrecv) == 1) and len(hargs) == len(hstart)
